@@ -14,6 +14,7 @@ import sympy as sp
 
 from vlib import models
 from vlib.models import Config
+from ampform.sympy import PoolSum
 
 QUICK_CFGS = [
     Config("jpsi_gamma_pi0_pi0", dynamics="bwff"),
@@ -64,6 +65,21 @@ def all_symbols(model) -> set[sp.Symbol]:
             out |= sp.sympify(v).atoms(sp.Symbol)
     for k in model.parameter_defaults:
         out |= k.atoms(sp.Symbol)
+    return out - not_model_symbols(model)
+
+
+def not_model_symbols(model) -> set[sp.Symbol]:
+    """Symbol atoms that are not symbols OF THE MODEL: labels of indexed amplitude bases and bound summation indices. They are absent from
+    the unfolded expression, are no parameters and no kinematic variables; their names are 'unknown names' of the statement's quantifier
+    (renaming the base label inside `intensity` while the keys of `amplitudes` keep it would break the mutual consistency)."""
+    out: set[sp.Symbol] = set()
+    exprs = [model.intensity, *model.amplitudes.values(), *model.components.values()]
+    for e in exprs:
+        e = sp.sympify(e)
+        for i in e.atoms(sp.Indexed):
+            out |= i.base.label.atoms(sp.Symbol)
+        for ps in e.atoms(PoolSum):
+            out |= {idx for idx, _ in ps.indices}
     return out
 
 
@@ -127,6 +143,17 @@ def rename_maps(cfg: Config) -> dict[str, list[dict[str, str]]]:
         out["kinematic_variable_used_by_other_kinematic_variables"] = [{nested[0].name: "renamed_inner_variable"}]
     if orphans:
         out["parameter_outside_the_expression"] = [{orphans[0].name: "renamed_orphan"}]
+    # names that occur in the model's attributes but are NOT symbols of the model (not in the unfolded expression, not a parameter, not a
+    # kinematic variable): labels of the indexed amplitude bases and bound summation indices of `intensity`. Renaming them is renaming an
+    # unknown name: warn, change nothing.
+    known = {s.name for s in all_symbols(model)}
+    bases = sorted({str(i.base.label) for i in model.intensity.atoms(sp.Indexed)} - known)
+    bound = sorted({str(idx) for ps in model.intensity.atoms(PoolSum) for idx, _ in ps.indices} - known)
+    if bases:
+        out["amplitude_base_label_is_unknown_name"] = [{bases[0]: "renamed_base"}]
+        out["amplitude_base_label_and_kinematic_variable"] = [{bases[-1]: "renamed_base", kin[0].name: "renamed_kinematic_variable"}]
+    if bound:
+        out["bound_summation_index_is_unknown_name"] = [{bound[0]: "renamed_index"}]
     return out
 
 
